@@ -1,6 +1,7 @@
 package sctp
 
 import (
+	"time"
 	"fmt"
 	"sort"
 	"strings"
@@ -167,6 +168,7 @@ func propC05(j *Job) {
 		}
 	}
 	c05EndToEnd(j)
+	c05FullBuffer(j)
 }
 
 // c05EndToEnd: SACK soundness/completeness monitor over fault-enumerated two-endpoint runs.
@@ -357,6 +359,110 @@ func c05DensestGaps(j *Job, wReq uint32, base uint32) {
 		if !want[t] {
 			j.failSeq("sack.unsound", caseName, fmt.Sprintf("the SACK reports TSN %d, which was never accepted", t), nil)
 			return
+		}
+	}
+}
+
+// c05FullBufferScenario: "acknowledged" means "accepted" also at the edges of acceptance - the
+// receive buffer exactly full or nearly so, a chunk that fills a hole below the highest TSN
+// received or lies above it, and an ordered DATA chunk whose stream sequence number can or cannot
+// be placed relative to a reader that is `backlog` messages behind.  A bare association (no
+// loops) is driven chunk by chunk; after every chunk each TSN the SACK names above the
+// cumulative point must be held by the stream it was sent on.
+func c05FullBufferScenario(backlog int, free uint32, hole bool, ahead uint32) *Scenario {
+	return &Scenario{
+		Name:    "accept-vs-ack",
+		Horizon: 10 * time.Second,
+		Body: func(m *Sim) {
+			recvBuf := uint32(backlog) + 2 + free
+			a, err := createServerAssociation(Config{NetConn: m.conn(0), LoggerFactory: nopLoggerFactory{}, MaxReceiveBufferSize: recvBuf})
+			if err != nil {
+				m.Failf("e3.base", "bare association: %v", err)
+				return
+			}
+			initial := uint32(0xffffc000)
+			a.payloadQueue.init(initial - 1)
+			a.setState(established)
+			mk := func(tsn uint32, sid, ssn uint16, n int) *chunkPayloadData {
+				return &chunkPayloadData{tsn: tsn, streamIdentifier: sid, streamSequenceNumber: ssn, beginningFragment: true, endingFragment: true,
+					payloadType: PayloadTypeWebRTCBinary, userData: make([]byte, n)}
+			}
+			tsn := initial
+			for i := 0; i < backlog; i++ {
+				a.handleData(mk(tsn, 1, uint16(i), 1))
+				tsn++
+			}
+			cum := tsn - 1
+			if a.peerLastTSN() != cum {
+				m.Failf("e3.base", "backlog of %d messages not taken in sequence (cumulative %d, want %d)", backlog, a.peerLastTSN(), cum)
+				return
+			}
+			// cum+1 and cum+2 are missing; cum+3 (stream 2, two bytes) arrives
+			a.handleData(mk(cum+3, 2, 0, 2))
+			late := cum + 2
+			if !hole {
+				late = cum + 4
+			}
+			sent := map[uint32]uint16{cum + 3: 2, late: 1}
+			a.handleData(mk(late, 1, uint16(uint32(backlog)+ahead), 1))
+			holds := func(sid uint16, t uint32) bool {
+				s := a.streams[sid]
+				if s == nil {
+					return false
+				}
+				q := s.reassemblyQueue
+				for _, set := range q.ordered {
+					for _, c := range set.chunks {
+						if c.tsn == t {
+							return true
+						}
+					}
+				}
+				for _, set := range q.unordered {
+					for _, c := range set.chunks {
+						if c.tsn == t {
+							return true
+						}
+					}
+				}
+				for _, c := range q.unorderedChunks {
+					if c.tsn == t {
+						return true
+					}
+				}
+				return false
+			}
+			sack := a.createSelectiveAckChunk()
+			var named []uint32
+			for _, b := range sack.gapAckBlocks {
+				for off := uint32(b.start); off <= uint32(b.end); off++ {
+					named = append(named, sack.cumulativeTSNAck+off)
+				}
+			}
+			for t := cum + 1; sna32LTE(t, sack.cumulativeTSNAck); t++ {
+				named = append(named, t)
+			}
+			for _, t := range named {
+				sid, ok := sent[t]
+				if !ok {
+					m.Failf("sack.unsound", "the SACK (cum %d, gaps %v) names TSN cum+%d, which was never sent", sack.cumulativeTSNAck-cum, sack.gapAckBlocks, t-cum)
+				} else if !holds(sid, t) {
+					m.Failf("sack.unsound", "reader %d ordered messages behind, %d bytes of receive buffer free, chunk cum+%d of stream %d with SSN %d ahead of the newest queued one: the SACK (gaps %v) acknowledges it, but no stream holds it - the sender will never send it again", backlog, free, t-cum, sid, ahead, sack.gapAckBlocks)
+				}
+			}
+			m.Observe("named=%d credit=%d", len(named), a.getMyReceiverWindowCredit())
+		},
+	}
+}
+
+func c05FullBuffer(j *Job) {
+	for _, backlog := range []int{3, 1 << 15} {
+		for _, free := range []uint32{0, 1, 2} {
+			for _, hole := range []bool{true, false} {
+				for _, ahead := range []uint32{0, 1, 1<<15 - 4, 1<<15 - 3} {
+					j.Explore(fmt.Sprintf("AV/backlog%d/free%d/hole%v/ahead%d", backlog, free, hole, ahead), c05FullBufferScenario(backlog, free, hole, ahead), Budget{}, nil)
+				}
+			}
 		}
 	}
 }
